@@ -110,7 +110,16 @@ def class_source(prog, ci, S, direct=False):
             # the second argument is the class itself, spelled Self, next to a reference that may still be pending
             # (as one whole string the annotation is evaluated at the first parse only)
             t_ = f"Tuple[{a_!r}, List[Self]]" if sp == "str" else repr(f"Tuple[{a_}, List[Self]]")
-        L.append(f"    pr: {t_} = Field(default=None)")
+        if c["pair"].get("annotated"):
+            # the Field travels inside the annotation: under postponed evaluation / as one string it can only be read
+            # off the annotation when that can be evaluated at the declaration, whether or not every name is defined
+            if t_[0] in "'\"":
+                t_ = repr("Annotated[" + t_[1:-1] + ", Field(alias_from=['prx'])]")
+            else:
+                t_ = f"Annotated[{t_}, Field(alias_from=['prx'])]"
+            L.append(f"    pr: {t_} = None")
+        else:
+            L.append(f"    pr: {t_} = Field(default=None)")
     for fi, r in enumerate(c["refs"]):
         tgt = f"C{r['to']}{S}"
         sp = "direct" if direct else r["spell"]
@@ -147,7 +156,7 @@ def class_source(prog, ci, S, direct=False):
 
 
 HEADER = ("from utype import Schema, DataClass, Field, Options, Rule\nimport utype\n"
-          "from typing import List, Dict, Optional, Union, Iterator, Generator, Literal, Tuple, Final, ClassVar\nfrom utype.utils.compat import Self\nfrom utype.types import Array, Object, PositiveInt as PosInt\nfrom props.c17_deco import logged as _logged\nimport sys as _sys\nMOD = _sys.modules[__name__]\n")
+          "from typing import List, Dict, Optional, Union, Iterator, Generator, Literal, Tuple, Final, ClassVar, Annotated\nfrom utype.utils.compat import Self\nfrom utype.types import Array, Object, PositiveInt as PosInt\nfrom props.c17_deco import logged as _logged\nimport sys as _sys\nMOD = _sys.modules[__name__]\n")
 
 
 def alias_source(S):
@@ -279,7 +288,7 @@ def model_class(prog, ci, data, depth=0):
                 raise Reject()
             out.append(["dsc", model_class(prog, which[x["kind"]], x, depth + 1)])
     if c.get("pair"):
-        x = data.get("pr")
+        x = data.get("pr", data.get("prx"))
         if x is None:
             out.append(["pr", None])
         else:
@@ -441,7 +450,7 @@ def gen_input(rng, prog, ci, depth, bad):
         d["dsc"] = x
     if c.get("pair") and depth < 3 and rng.random() < 0.7:
         one = lambda t_: dict(gen_input(rng, prog, t_, depth + 2, bad))  # noqa
-        d["pr"] = [one(c["pair"]["a"]), [one(c["pair"]["b"]) for _ in range(rng.choice([1, 1, 2]))]]
+        d["prx" if c["pair"].get("annotated") and rng.random() < 0.5 else "pr"] = [one(c["pair"]["a"]), [one(c["pair"]["b"]) for _ in range(rng.choice([1, 1, 2]))]]
     if c.get("addn") and depth < 3:
         for j in range(rng.choice([0, 1, 1, 2])):
             one = lambda: dict(gen_input(rng, prog, c["addn"]["to"], depth + 2, bad))  # noqa
@@ -637,6 +646,8 @@ def generate(rng, tier):
             if not dag and ci in no_req and rng.random() < 0.4:
                 classes[ci]["pair"]["b"] = ci
                 classes[ci]["pair"]["self_b"] = True
+            elif rng.random() < 0.5:
+                classes[ci]["pair"]["annotated"] = True
     plan = {"prop": ID, "kind": "module", "prog": prog, "order": order}
     # events: defines in `order` (alias and function somewhere), uses interleaved
     ev = [{"ev": "define", "cls": c} for c in order]
